@@ -207,6 +207,34 @@ func C12(c *Ctx) {
 		afterMut := core.Reach(starts, nil, nil)
 		for _, ret := range core.Returns(fn) {
 			g := errGlobalReturned(ret)
+			if g == "" {
+				// `return err` where err is the verdict of a helper of the ledger that refuses with these errors
+				for _, res := range ret.Results {
+					for _, o := range core.RetOrigins(res) {
+						call, _ := core.CallOf(o.V)
+						if call == nil {
+							continue
+						}
+						h := core.StaticCallee(call)
+						if h == nil || len(h.Blocks) == 0 || core.PkgOf(h) != ledgerPkg {
+							continue
+						}
+						hm := sites(h, ledgerMutation)
+						for _, hret := range core.Returns(h) {
+							if hg := errGlobalReturned(hret); hg == "ErrorRollbackToHigherNumber" || hg == "ErrorRollbackTooMuch" {
+								nRef++
+								r.Check(len(hm) == 0, "R12.1", shortFn(fn)+": "+hg+" before any mutation", c.P.Pos(hret.Pos()), "refused in "+shortFn(h)+", which mutates nothing", "the helper that refuses the rollback also modifies the ledger")
+								g = "helper"
+							}
+						}
+					}
+				}
+				if g == "helper" {
+					r.Check(!afterMut.Has(ret), "R12.1", shortFn(fn)+": helper refusal returned before any mutation", c.P.Pos(ret.Pos()), fmt.Sprintf("not reachable after any of %d mutation sites", len(muts)),
+						"the rollback is refused after the ledger was already modified (cache cleared / batch written / field stored)")
+				}
+				continue
+			}
 			if g != "ErrorRollbackToHigherNumber" && g != "ErrorRollbackTooMuch" {
 				continue
 			}
@@ -469,11 +497,43 @@ func C12(c *Ctx) {
 		}
 		// the refusal window: refuse exactly when minJnlHeight > height
 		nWin := 0
-		for _, b := range rs.Blocks {
+		// the comparison may live in RollbackState or in a helper of the ledger that receives the height
+		type hsite struct {
+			fn *ssa.Function
+			h  ssa.Value
+		}
+		var hs []hsite
+		if hp != nil {
+			hs = append(hs, hsite{rs, hp})
+			for i := 0; i < len(hs) && i < 8; i++ {
+				for _, call := range core.Calls(hs[i].fn) {
+					g := core.StaticCallee(call)
+					if g == nil || len(g.Blocks) == 0 || core.PkgOf(g) != ledgerPkg || g == rs {
+						continue
+					}
+					args := call.Common().Args
+					for ai, a := range args {
+						if core.Strip(a) == hs[i].h && ai < len(g.Params) {
+							hs = append(hs, hsite{g, g.Params[ai]})
+						}
+					}
+				}
+			}
+		}
+		var winBlocks []*ssa.BasicBlock
+		hOf := map[*ssa.BasicBlock]ssa.Value{}
+		for _, x := range hs {
+			for _, b := range x.fn.Blocks {
+				winBlocks = append(winBlocks, b)
+				hOf[b] = x.h
+			}
+		}
+		for _, b := range winBlocks {
 			ifi := core.IfOf(b)
 			if ifi == nil || hp == nil {
 				continue
 			}
+			hv := hOf[b]
 			f := core.CondFact(ifi.Cond)
 			if f.Kind != core.FCmp {
 				continue
@@ -497,7 +557,7 @@ func C12(c *Ctx) {
 				return 0, false
 			}
 			isMin := func(v ssa.Value) bool { _, fld, _, ok := core.FieldOf(v); return ok && fld == "minJnlHeight" }
-			isH := func(v ssa.Value) bool { return v == ssa.Value(hp) }
+			isH := func(v ssa.Value) bool { return v == hv }
 			op := f.Op
 			var a, bb int64 // (min + a) op (height + bb)
 			a, okA := off(f.Subject, isMin)
